@@ -144,6 +144,15 @@ pub(crate) mod serializer;
 mod shared;
 pub mod stream;
 
+/// Verification hook (compiled only with `--cfg sozu_verif`): exposes the crate-private H2 frame
+/// serializer (and the settings struct it takes) so that an external harness can run
+/// encoder/decoder round-trip checks in-process. Nothing changes with the guard off.
+#[cfg(sozu_verif)]
+pub mod verif_reexport {
+    pub use super::h2::H2Settings;
+    pub use super::serializer::*;
+}
+
 use crate::metrics::names;
 use crate::{
     BackendConnectionError, FrontendFromRequestError, L7ListenerHandler, L7Proxy, ListenerHandler,
